@@ -225,7 +225,15 @@ def handleMerged (j : Json) : Except String Json := do
   | .error e => pure (Json.mkObj [("err", .str (errName e))])
   | .ok files =>
     let cs := filesOfType files contentTypes
-    pure (Json.mkObj (cs.map fun r => (String.ofList r.path, jM (fun cr => jXml cr.2) (rootElement o a files r))))
+    -- "<again>": the parts whose merged tree is NOT a fixed point of `mergeElems` (C16: saving the saved file)
+    let again := cs.filter fun r =>
+      match rootElement o a files r with
+      | .ok cr => (match mergeElems cr.1 cr.2 with
+          | .ok m2 => (jXml m2).compress != (jXml cr.2).compress
+          | .error _ => true)
+      | .error _ => false
+    pure (Json.mkObj ((cs.map fun r => (String.ofList r.path, jM (fun cr => jXml cr.2) (rootElement o a files r))) ++
+      [("<again>", .arr (again.map fun r => jStr r.path).toArray)]))
 
 mutual
 /-- the paragraphs of a tree, in document order -/
